@@ -14,7 +14,16 @@ def abs1(z):
     return abs(z[0]) + abs(z[1])
 
 
+def _finite(v):
+    import math
+    if isinstance(v, tuple):
+        return all(math.isfinite(t) for t in v)
+    return math.isfinite(v)
+
+
 def backward_error(M, x, b, trans=0):
+    if not all(_finite(v) for v in x):
+        return None          # NaN / Inf in the returned solution: infinite backward error
     """componentwise backward error  max_i |b - op(A)x|_i / (|op(A)||x| + |b|)_i  (exact; complex uses |re|+|im| for the
     numerator's upper bound and max(|re|,|im|)... see below).  trans: 0 N, 1 T, 2 C.
     Real: exact omega.  Complex: returns an UPPER bound on omega (numerator abs1, denominator with moduli bounded below by
